@@ -5,6 +5,7 @@ import time
 from .common import ints
 
 PROP_FILE = "Properties/C16.v"
+GEN = ["GenC16"]
 RUN_FILES = ["Model/C16_run.v"]
 
 HDR = ("From Coq Require Import ZArith List Bool.\nFrom PR Require Import Base.ListX Model.Boundary Model.C16_run.\n"
@@ -323,7 +324,16 @@ def gen_cases(ctx):
         rings.append({"kind": "area", "tag": "area_" + name + ("_flip%d" % fk if fk else ""), "proj": CRS[name],
                       "shape": [h, w], "extent": ext, "vps": v, "want_lonlats": True, "true_cw": None})
     rings += gen_long(ctx)
+    for g in rings:
+        g["want_legacy"] = g.get("key") != "long_side" or r.random() < 0.3
+        if g["vps"] is None and r.random() < 0.7:
+            g["frequency_legacy"] = r.choice([1, 2, 2, 3, 4, 5, 7, 11])
     c["rings"] = rings
+    # ---- AreaBoundary.decimate on synthetic sides (positions as values), with and without a memoised polygon
+    dec = [([L, L, L, L], q, t) for L in range(2, 13) for q in range(1, 8) for t in (False,)]
+    for _ in range(ctx.n(120, 1200)):
+        dec.append(([r.randint(2, r.choice([8, 40, 200])) for _ in range(4)], r.randint(1, r.choice([3, 12, 60])), r.random() < 0.5))
+    c["decimate"] = dec
     # ---- NaN filtering (encoded north-up swaths with invalid edge pixels)
     nanc = []
     for _ in range(ctx.n(60, 500)):
@@ -403,7 +413,7 @@ def run(ctx):
     payload = {"linspace": cases["linspace"], "slices": cases["slices"]}
     ring_in = []
     for g in cases["rings"]:
-        q = {k: g[k] for k in ("kind", "vps") if k in g}
+        q = {k: g[k] for k in ("kind", "vps", "want_legacy", "frequency_legacy") if k in g}
         if g["kind"] == "swath":
             q["lons"] = [[hx(v) for v in row] for row in g["lons"]]
             q["lats"] = [[hx(v) for v in row] for row in g["lats"]]
@@ -423,6 +433,7 @@ def run(ctx):
         nan_in.append({"kind": "swath", "vps": v, "lons": [[hx(x) for x in row] for row in lons],
                        "lats": [[hx(x) for x in row] for row in lats], "dask": False, "xarray": False})
     payload["rings"] = ring_in + nan_in
+    payload["decimate"] = [{"lens": l, "ratio": q, "touch_poly_first": t} for (l, q, t) in cases.get("decimate", [])]
     X, Y, xa, ya = cases["geos_consts"]
     geos_in = []
     for g in cases["geos"]:
@@ -489,6 +500,7 @@ def run(ctx):
 
     # ================================================================= rings
     L = []
+    L_full, L_dec = [], []
     nring = len(cases["rings"])
     for g, o in zip(cases["rings"], obs["rings"][:nring]):
         v = g["vps"]
@@ -566,6 +578,44 @@ def run(ctx):
             if pe != ed:
                 ctx.add_failure("C16.api_consistency.proj_edge", "%s: get_edge_bbox_in_projection_coordinates visits other pixels than get_edge_lonlats" % what, rep)
                 continue
+        # ---- legacy entry points: get_boundary_lonlats (complete sides), AreaDefBoundary(area, frequency) (decimated sides)
+        if "legacy_sides" in o:
+            if is_err(o["legacy_sides"]):
+                ctx.add_failure("C16.error.legacy", "%s: get_boundary_lonlats raised %s" % (what, o["legacy_sides"]["error"]), rep)
+                continue
+            ls = dec_sides(o["legacy_sides"], table)
+            want = [[(0, cc) for cc in range(w)], [(rr, w - 1) for rr in range(h)],
+                    [(h - 1, cc) for cc in range(w - 1, -1, -1)], [(rr, 0) for rr in range(h - 1, -1, -1)]]
+            ctx.count("legacy_get_boundary_lonlats")
+            if ls != want:
+                ctx.add_failure("C16.legacy.boundary_lonlats", "%s: get_boundary_lonlats does not return the four complete edge rows/columns" % what, rep)
+                continue
+            L_full.append("(%d, %d, %s)" % (h, w, sidesl(ls)))
+        if "adb_sides" in o:
+            ctx.count("legacy_AreaDefBoundary_frequency")
+            q = g["frequency_legacy"]
+            if is_err(o["adb_sides"]):
+                ctx.add_failure("C16.error.legacy", "%s: AreaDefBoundary(frequency=%d) raised %s" % (what, q, o["adb_sides"]["error"]), rep)
+                continue
+            ad = dec_sides(o["adb_sides"], table)
+            adc = dec_list(o["adb_contour"], table)
+            okd = all(p is not None for s_ in ad for p in s_)
+            poss = []
+            if okd:
+                for s_full, s_dec in zip(sf, ad):
+                    pos = [s_full.index(p) if p in s_full else None for p in s_dec]
+                    poss.append(pos)
+                okd = all(None not in pos and pos[0] == 0 and pos[-1] == len(s_full) - 1 and all(a_ < b_ for a_, b_ in zip(pos, pos[1:]))
+                          for pos, s_full in zip(poss, sf))
+            if not okd or not all(ad[i][-1] == ad[(i + 1) % 4][0] for i in range(4)) or len(set(adc)) != len(adc) \
+                    or adc != [p for s_ in ad for p in s_[:-1]]:
+                ctx.add_failure("C16.legacy.decimate", "%s: AreaDefBoundary(frequency=%d) is not a closed, repetition-free sub-ring keeping the corners: %s" % (what, q, ad), rep)
+                continue
+            if o["adb_poly_n"] != len(adc):
+                ctx.add_failure("C16.history.decimate_stale_poly", "%s: AreaDefBoundary(frequency=%d).contour_poly has %d vertices, contour() %d" % (what, q, o["adb_poly_n"], len(adc)), rep)
+                continue
+            for pos, s_full in zip(poss, sf):
+                L_dec.append("(%d, %d, [%s])" % (len(s_full), q, "; ".join(str(x) for x in pos)))
         # ---- orientation and footprint (spherical; independent computation)
         ring = [vec(lons[rr][cc], lats[rr][cc]) for rr, cc in cf]
         sa = signed_area(ring)
@@ -645,6 +695,35 @@ def run(ctx):
     for i in range(0, len(L), 250):
         texts.append(("c16_ring_%d" % (i // 250), HDR + "Definition cases : list ring_obs := [%s].\nEval vm_compute in (bad chk_ring cases).\n"
                       % ";\n".join(L[i:i + 250]), L[i:i + 250], "ring"))
+
+    # ================================================================= AreaBoundary.decimate (positions kept; memoised polygon)
+    for (lens, q, touch), o in zip(cases.get("decimate", []), obs.get("decimate", [])):
+        ctx.case(("dec", tuple(lens), q, touch), nontrivial=q > 1, sample={"decimate": {"side_lengths": lens, "ratio": q, "contour_poly_before": touch},
+                                                                         "impl_positions": o.get("positions") if not is_err(o) else o})
+        ctx.count("decimate_" + ("after_contour_poly" if touch else "fresh"))
+        rep = {"oracle": "decimate", "args": [lens, q, touch]}
+        if is_err(o):
+            ctx.add_failure("C16.error.legacy", "AreaBoundary.decimate(%d) on sides of %s vertices raised %s" % (q, lens, o["error"]), rep)
+            continue
+        okd = o["positions"] == o["lat_positions"] and all(
+            pos and pos[0] == 0 and pos[-1] == L_ - 1 and all(a_ < b_ for a_, b_ in zip(pos, pos[1:])) for pos, L_ in zip(o["positions"], lens))
+        if not okd:
+            ctx.add_failure("C16.legacy.decimate", "AreaBoundary.decimate(%d) on sides of %s vertices keeps positions %s: not increasing from the first to the last vertex"
+                            % (q, lens, o["positions"]), rep)
+            continue
+        if not o["poly_matches_contour"] or not o["vertices_match_contour"]:
+            ctx.add_failure("C16.history.decimate_stale_poly", "b.contour_poly%s; b.decimate(%d); b.contour_poly has %d vertices while b.contour() has %d (sides of %s vertices)"
+                            % ("" if touch else " (not read before)", q, o["poly_n_after"], o["contour_n"], lens), rep)
+            continue
+        for pos, L_ in zip(o["positions"], lens):
+            L_dec.append("(%d, %d, [%s])" % (L_, q, "; ".join(str(x) for x in pos)))
+    L_dec = list(dict.fromkeys(L_dec))
+    for i in range(0, len(L_dec), 500):
+        texts.append(("c16_dec_%d" % (i // 500), HDR + "Definition cases : list (Z * Z * list Z) := [%s].\nEval vm_compute in (bad chk_decimate cases).\n"
+                      % ";\n".join(L_dec[i:i + 500]), L_dec[i:i + 500], "decimate"))
+    for i in range(0, len(L_full), 300):
+        texts.append(("c16_full_%d" % (i // 300), HDR + "Definition cases : list (Z * Z * list (list pix)) := [%s].\nEval vm_compute in (bad chk_full_sides cases).\n"
+                      % ";\n".join(L_full[i:i + 300]), L_full[i:i + 300], "get_boundary_lonlats"))
 
     # ================================================================= NaN filtering
     L = []
@@ -847,6 +926,9 @@ def replay(ctx, data):
         h, w, v, nlon, nlat = case["args"]
         cases = {"linspace": [], "slices": [], "rings": [], "nan": [(h, w, v, [tuple(p) for p in nlon], [tuple(p) for p in nlat])],
                  "geos": [], "geos_consts": geos_consts()}
+    elif kind == "decimate":
+        lens, q, t = case["args"]
+        cases = {"linspace": [], "slices": [], "rings": [], "nan": [], "geos": [], "geos_consts": geos_consts(), "decimate": [(lens, q, t)]}
     elif kind == "geos":
         g = dict(case["case"])
         g["kind"] = "area"
